@@ -62,6 +62,7 @@ fn library() -> HashMap<String, String> {
     st.insert("a".to_string(), "# A\n\ntext [b](b) more\n\n[b](b)\n\n[gone](missing)\n\n- item one\n- item two\n\n## Sub\n\n[d](d/x)\n".to_string());
     st.insert("b".to_string(), "[top](a)\n\n# B\n\npara\n".to_string());
     st.insert("d/x".to_string(), "# X\n\n[up](../a)\n\ninline [a](../a) link\n".to_string());
+    st.insert("r".to_string(), "# Root\n\n## Part\n\n[a](a)\n".to_string());
     st
 }
 
@@ -127,9 +128,66 @@ pub fn check_request(label: &str, method: &str, params: &Value) -> Option<String
     s.notify("textDocument/didChange", json!({"textDocument": {"uri": uri("b"), "version": 2}, "contentChanges": [{"text": "# probe\n"}]}));
     let probe = s.request("textDocument/formatting", json!({"textDocument": {"uri": uri("b")}, "options": {"tabSize": 2, "insertSpaces": true}}), Duration::from_millis(1500));
     let alive = probe.len() == 1 && probe[0]["result"][0]["newText"].as_str() == Some("# probe\n");
+    // … and answers the other kinds of request exactly as a session that never saw the request does
+    let after = battery(&mut s);
     let ended = s.finish();
+    let isolated = {
+        let base = BASELINE.get_or_init(|| {
+            let mut b = Session::start(library());
+            b.notify("textDocument/didChange", json!({"textDocument": {"uri": uri("b"), "version": 2}, "contentChanges": [{"text": "# probe\n"}]}));
+            let out = battery(&mut b);
+            b.finish();
+            out
+        });
+        base.iter().zip(after.iter()).find(|(b, a)| b != a).map(|(b, a)| format!("{}: a later request is answered differently than in a session without it: {} instead of {}", label, cut(a), cut(b)))
+    };
     what.or(if !alive { Some(format!("{}: afterwards the server does not answer a formatting request correctly ({:?})", label, probe)) } else { None })
+        .or(isolated)
         .or(if !ended { Some(format!("{}: the loop does not end cleanly on exit", label)) } else { None })
+}
+
+static BASELINE: std::sync::OnceLock<Vec<String>> = std::sync::OnceLock::new();
+
+fn cut(s: &str) -> String {
+    s.chars().take(300).collect()
+}
+
+/// requests of every family with answers that depend only on the library; canonical strings
+fn battery(s: &mut Session) -> Vec<String> {
+    let canon = |method: &str, replies: Vec<Value>| -> String {
+        if replies.len() != 1 {
+            return format!("{}: {} responses", method, replies.len());
+        }
+        let r = &replies[0];
+        let body = match &r["result"] {
+            Value::Array(a) => {
+                let mut items: Vec<String> = a.iter().map(|v| v.to_string()).collect();
+                items.sort();
+                format!("[{}]", items.join(","))
+            }
+            v => v.to_string(),
+        };
+        format!("{}: result {} error {}", method, body, r["error"])
+    };
+    let w = Duration::from_millis(1500);
+    let at = |l: u32, c: u32| json!({"line": l, "character": c});
+    let mut out = vec![];
+    for (method, params) in [
+        ("textDocument/codeAction", json!({"textDocument": {"uri": uri("a")}, "range": {"start": at(8, 0), "end": at(8, 0)}, "context": {"diagnostics": []}})),
+        ("textDocument/codeAction", json!({"textDocument": {"uri": uri("a")}, "range": {"start": at(11, 0), "end": at(11, 0)}, "context": {"diagnostics": []}})),
+        ("codeAction/resolve", json!({"title": "t", "kind": "refactor.rewrite.list.type", "data": 6})),
+        ("textDocument/references", json!({"textDocument": {"uri": uri("a")}, "position": at(0, 0), "context": {"includeDeclaration": false}})),
+        ("textDocument/definition", json!({"textDocument": {"uri": uri("a")}, "position": at(2, 7)})),
+        ("textDocument/documentSymbol", json!({"textDocument": {"uri": uri("a")}})),
+        ("textDocument/inlayHint", json!({"textDocument": {"uri": uri("a")}, "range": {"start": at(0, 0), "end": at(100, 0)}})),
+        ("textDocument/completion", json!({"textDocument": {"uri": uri("a")}, "position": at(0, 0)})),
+        ("workspace/symbol", json!({"query": ""})),
+        ("textDocument/rename", json!({"textDocument": {"uri": uri("a")}, "position": at(2, 7), "newName": "fresh"})),
+    ] {
+        let r = s.request(method, params, w);
+        out.push(canon(method, r));
+    }
+    out
 }
 
 pub fn run(ctx: &Ctx, model: &mut Model, rep: &mut Report) {
@@ -138,7 +196,7 @@ pub fn run(ctx: &Ctx, model: &mut Model, rep: &mut Report) {
     if ctx.replay.is_some() {
         return;
     }
-    rep.rule.push_str("; plus every advertised method × parameter classes (URIs inside/outside the library and unknown, positions inside/outside the text, dangling links, references outside a section, every code-action kind × node classes incl. stale / non-numeric / missing data, unknown kind, unknown method, malformed params), each in a fresh session over the real message loop with a liveness probe (didChange + formatting) and a clean exit");
+    rep.rule.push_str("; plus every advertised method × parameter classes (URIs inside/outside the library and unknown, positions inside/outside the text, dangling links, references outside a section, every code-action kind × node classes incl. stale / non-numeric / missing data, unknown kind, unknown method, malformed params), each in a fresh session over the real message loop with a liveness probe (didChange + formatting), an isolation battery (10 later requests of every family answered exactly as in a session that never saw the request) and a clean exit");
     let open: Vec<String> = known::open(ctx, "C12").iter().filter_map(|f| f.witness.get("label").and_then(|l| l.as_str()).map(|s| s.to_string())).collect();
     let classes = request_classes();
     let mut r = Rng::new(ctx.seed ^ 0xC12C);
@@ -170,6 +228,9 @@ pub fn run(ctx: &Ctx, model: &mut Model, rep: &mut Report) {
                 rep.fail(json!({"kind": "request", "label": label, "method": method, "params": params, "what": what}));
             }
         }
+    }
+    if let Some(b) = BASELINE.get() {
+        rep.sample(json!({"isolation_baseline": b.iter().map(|x| cut(x)).collect::<Vec<_>>()}));
     }
     for f in known::open(ctx, "C12") {
         if let Some(l) = f.witness.get("label").and_then(|l| l.as_str()) {
